@@ -58,9 +58,15 @@ CHECKS = {
  "C17": (FE, "DESIGN.md §3 C17", "runtime monitoring with fault injection: raw protocol peers with enumerated names/indices/masks/stall points ahead of a real stub plugin through the real socket; activation observed at the peers; filesystem-mode and connect probes under several umasks; race detector",
          "Every listed ill- or well-formed registration (names, index strings, all single mask bits valid and invalid, random masks, five stall points, up to four of them ahead of a good plugin) is executed against the real adaptation; a peer must be synchronized and receive events iff it is well-formed and timely, the good plugin must get through within the bound; directories NRI creates for the socket must be private under umask 000-077; no socket when external connections are disabled.",
          "Timeouts 800/500 ms via NRI's setters; at most three silent peers per case."),
+ "C18": (FE, "DESIGN.md §3 C18", "runtime monitoring at process level: a probe plugin (real stub) launched by the real Adaptation reports its environment, arguments and descriptor table (raw system calls before any Go I/O), configuration and invocations; generated plugin directories incl. failing plugins; /proc process-state probes after drop and after Stop",
+         "Generated directory contents (executables, non-executables, subdirectories, drop-in pairs, failure-mode plugins) are served by a real Adaptation in a child process; what each launched process was given and what happened to it is observed from inside the probe and from the process table.",
+         "Zombies of self-exited plugins are recorded only; unparseable executable names and wasm plugins are outside what is asserted."),
  "C19": (EX, "DESIGN.md §3 C19", "runtime monitoring: online mutual-exclusion counters in the update callback and lifecycle handlers, offline exactly-once/equality checker over unique update ids, porcupine sequencer model, race detector",
          "Plugins issue unsolicited updates concurrently with each other and with lifecycle requests; the callback's overlap with itself and with any handler is counted online; arguments and results are compared by unique id offline.",
          "Overlap is observed at the callback and handler boundaries of one process; empty update lists carry no id and are not generated."),
+ "C20": (EX, "DESIGN.md §3 C20", "runtime monitoring: the built sample plugins launched by a real Adaptation; annotation sets generated from structured values with a reference expectation; response comparison",
+         "Creation requests with generated pod annotations (all scope combinations, other containers' keys, prefix-related names, YAML/JSON, empty values, 64-bit boundary rlimits, ill-formed payloads) go through the real adaptation to the two built plugin binaries; the adjustment must be exactly what the most specific annotation describes, ill-formed ones must fail the request.",
+         "Keys within one annotation are unique (same-plugin duplicates are undefined in the adaptation)."),
 }
 
 NOT_YET = {}
